@@ -381,8 +381,15 @@ def run_case(ch: Choices, params: dict) -> dict:
                         kind = ch.pick(SIMS, "kind")
                         s = [None, 21, 2, 0][ch.draw(4, "own_seed")]
                         obj, spec = simcls[kind](random_seed=s), None
-                        spec = spec_of(obj)
                         op = f"with_simulator({kind}(random_seed={s}))"
+                        if not real and ch.draw(4, "nested_plugin") == 0:
+                            # a plugin that wraps another plugin and takes its seed from it
+                            # when constructed (its __post_init__ is not a pure validation)
+                            from selene_sim import QuantumReplay
+                            obj = QuantumReplay(simulator=obj, measurements=[[True, False]])
+                            op = f"with_simulator(QuantumReplay({kind}(random_seed={s})))"
+                            probes["nested_plugin"] = probes.get("nested_plugin", 0) + 1
+                        spec = spec_of(obj)
                     elif w == 1:    # harness-held user object, possibly attached elsewhere
                         ui = ch.draw(len(users), "user_obj")
                         obj, spec = users[ui]
